@@ -370,3 +370,27 @@ Definition out_seg (keys : list (list byte)) (sg : seg) : list byte :=
 Definition spec_segments (segs : list seg) : list byte * subst :=
   let keys := first_occ (exprs segs) in
   (concat (map (out_seg keys) segs), number_from 0 keys).
+
+(* ---- ScriptRunner.prepare_variables --------------------------------------- *)
+(* PBK_BUFR_MESSAGE, PBK_FILENAME *)
+Definition name_message : list byte := [80;66;75;95;66;85;70;82;95;77;69;83;83;65;71;69].
+Definition name_filename : list byte := [80;66;75;95;70;73;76;69;78;65;77;69].
+
+Section Run.
+  Context {R : Type}.
+  (* the dict comprehension over substitutions.items(), then update({...}):
+     a list of successive assignments; query = get_query_result(bufr_message, .) *)
+  Definition prepare_variables (query : list byte -> R) (msg filename : R) (m : subst)
+    : list (list byte * R) :=
+    map (fun kv => (snd kv, query (fst kv))) m ++ [(name_message, msg); (name_filename, filename)].
+  (* reading a name: the last assignment wins *)
+  Fixpoint lookup_last (k : list byte) (l : list (list byte * R)) : option R :=
+    match l with
+    | [] => None
+    | (k', v) :: r =>
+      match lookup_last k r with
+      | Some x => Some x
+      | None => if bytes_eqb k k' then Some v else None
+      end
+    end.
+End Run.
